@@ -560,7 +560,11 @@ def _jobs_for(prop, tier):
         # no-pressure configurations for the lower bound, small capacities for M-room;
         # deeper than C01 because drift shows on the refill after expiry/invalidation
         return (c01_space(tier, caps=["none"], with_collide=False, prefix="c03", dU=10 if thorough else 7, dS=9 if thorough else 7, keysU=2, keysS=2, a=3 if thorough else 2)
-                + c01_space(tier, caps=[1, 2, 3], with_collide=False, prefix="c03", dU=9 if thorough else 7, dS=8 if thorough else 6, a=2 if thorough else 1))
+                + c01_space(tier, caps=[1, 2, 3], with_collide=False, prefix="c03", dU=9 if thorough else 7, dS=8 if thorough else 6, a=2 if thorough else 1)
+                # two clock advances under capacity pressure (single-threaded cache, two keys,
+                # weighted): an update that does not fit, then the key again, across two deadlines
+                + c01_space(tier, caps=[1, 2], weighers=(1,), expiries=[dict(ttl=2), dict(tti=2)], kinds=("U",), with_collide=False,
+                            prefix="c03a2", dU=8 if thorough else 7, keysU=2, a=2))
     if prop == "C04":
         return c01_space(tier, alpha="c04", caps=[0, 1, 2, 3], weighers=(1,), with_collide=False, prefix="c04", dU=8 if thorough else 6, dS=7 if thorough else 5, keysU=2, keysS=2) + \
             c01_space(tier, caps=[0, 1, 2], weighers=(0,), expiries=[dict(), dict(ttl=2, tti=3)], with_collide=True, prefix="c04")
